@@ -421,7 +421,8 @@ bool StateMachine::Impl::run(Event event)
         next_state_id = curr_state_->default_event(event);
     --cb_level_;
 
-    if (next_state_id == NULL_STATE_ID) {
+    //! 事件处理函数返回<0表示不进行状态转换，此时按路由表处理
+    if (next_state_id < 0) {
         //! 找出可行的路径
         ++cb_level_;
         auto route_iter = std::find_if(curr_state_->routes.begin(), curr_state_->routes.end(),
